@@ -337,15 +337,18 @@ void DecodeMotoADR(Word Index) {
 }
 
 static void DecodeFCC(Word Index) {
-    String    SVal;
-    Boolean   OK;
-    tStrComp *pArg, Arg;
-    int       z3, l;
-    LongInt   Rep, z2;
+    String     SVal;
+    Boolean    OK;
+    tStrComp * pArg, Arg;
+    int        z3, l;
+    LongInt    Rep, z2;
+    TempResult t;
+    char*      pVal;
     UNUSED(Index);
 
     if (ChkArgCnt(1, ArgCntMax)) {
         OK = True;
+        as_tempres_ini(&t);
 
         forallargs(pArg, OK) {
             if (!*pArg->str.p_str) {
@@ -359,22 +362,40 @@ static void DecodeFCC(Word Index) {
                 break;
             }
 
-            EvalStrStringExpression(&Arg, &OK, SVal);
+            /* a string keeps its own length: it may contain NUL characters */
+
+            EvalStrExpression(&Arg, &t);
+            pVal = SVal;
+            l    = 0;
+            if (t.Typ == TempString) {
+                pVal = t.Contents.str.p_str;
+                l    = t.Contents.str.len;
+            } else if (t.Typ == TempInt) {
+                as_snprintf(SVal, STRINGSIZE, "%" PRId64, t.Contents.Int);
+                l = strlen(SVal);
+            } else if (t.Typ == TempNone) {
+                OK = False;
+            } else if (!mFirstPassUnknown(t.Flags)) {
+                WrStrErrorPos(
+                        (t.Typ == TempFloat) ? ErrNum_StringButFloat : ErrNum_ExpectString,
+                        &Arg);
+                OK = False;
+            }
             if (OK) {
-                if (SetMaxCodeLen(CodeLen + Rep * strlen(SVal))) {
+                if (SetMaxCodeLen(CodeLen + Rep * l)) {
                     WrError(ErrNum_CodeOverflow);
                     OK = False;
                 } else {
-                    l = strlen(SVal);
-                    TranslateString(SVal, l);
+                    TranslateString(pVal, l);
                     for (z2 = 0; z2 < Rep; z2++) {
                         for (z3 = 0; z3 < l; z3++) {
-                            PutByte(SVal[z3]);
+                            PutByte(pVal[z3]);
                         }
                     }
                 }
             }
         }
+        as_tempres_free(&t);
 
         if (!OK) {
             CodeLen = 0;
